@@ -39,6 +39,8 @@ type Profile struct {
 	ASCIINames, NoEmptyArgs, SingleTokenOperands, MultiTokenCases                                  bool
 	PFallback                                                                                      float64 // probability that a poryswitch has a `_` case (default 0.5)
 	WCondGoto                                                                                      int     // weight of user-written goto_if_set/goto_if_unset commands (targets: labels of the same script)
+	PCall                                                                                          float64 // probability that a command statement is `call(<external script>)`
+	PReuseOperand                                                                                  float64 // probability that a leaf reuses the operand (and mostly the comparison) of an earlier leaf
 	PRepeatAuto                                                                                    float64 // probability that an AutoVar leaf repeats the previous AutoVar command verbatim
 	PoryContinueAnywhere                                                                           bool    // allow `continue` to end a poryswitch case that is not last in its block
 }
@@ -53,6 +55,7 @@ type Gen struct {
 	gotos       []*Cmd
 	condGotos   []*Cmd
 	lastAuto    *Cmd
+	prevLeaves  map[string][]*Leaf
 	lastAutoVar string
 	// lexical context
 	loopDepth   int
@@ -82,7 +85,7 @@ func NewGen(r *rand.Rand, p Profile) *Gen {
 	if len(p.TextPool) == 0 {
 		p.TextPool = []string{"Hello", "Bye now", "Hello", "A b c", "Prize!", "x", "Pok\uFFFDmon é"}
 	}
-	g := &Gen{R: r, P: p, Prog: &Program{AutoVars: map[string]AutoVar{}, Switches: map[string]string{}}, VarCands: map[int]bool{0: true, 1: true}}
+	g := &Gen{R: r, P: p, Prog: &Program{AutoVars: map[string]AutoVar{}, Switches: map[string]string{}}, VarCands: map[int]bool{0: true, 1: true}, prevLeaves: map[string][]*Leaf{}}
 	return g
 }
 
@@ -243,6 +246,12 @@ func (g *Gen) Cmd() *Cmd {
 		// ordinary commands whose names merely start like control commands
 		c.Name = g.Name([]string{"gotostd", "goto_ifx", "returnx", "endx", "callstd", "comparex", "switchx"}[g.R.IntN(7)])
 	}
+	if g.P.PCall > 0 && g.chance(g.P.PCall) {
+		// a subroutine call to a script outside the file (an ordinary command for the compiler)
+		c.Name = "call"
+		c.Args = []*Arg{{Toks: []string{g.Name("Common_Elsewhere")}}}
+		return c
+	}
 	n := g.R.IntN(4)
 	for i := 0; i < n; i++ {
 		switch {
@@ -352,7 +361,11 @@ func (g *Gen) autoCmdFresh() (*Cmd, string) {
 	if plainIdx >= 0 && g.R.IntN(2) == 0 {
 		v := g.Name("VAR_P")
 		c.Args[plainIdx] = &Arg{Toks: []string{v}}
-		g.Prog.AutoVars[c.Name] = AutoVar{ArgPos: plainIdx}
+		av := AutoVar{ArgPos: plainIdx}
+		if g.R.IntN(4) == 0 {
+			av.VarName = "VAR_IGNORED_BECAUSE_OF_POSITION" // both keys in the config: the position wins
+		}
+		g.Prog.AutoVars[c.Name] = av
 		varName = v
 	} else {
 		varName = g.Name("VAR_A")
@@ -382,6 +395,32 @@ func (g *Gen) LeafCond() *Leaf {
 		l.Operand = []string{g.Name("TRAINER_")}
 	case LeafVar:
 		l.Operand = []string{g.Name("VAR_")}
+	}
+	if l.Kind != LeafAuto && g.chance(g.P.PReuseOperand) {
+		// the same operand (and often the same comparison) as an earlier leaf of this kind
+		if prev := g.prevLeaves[l.Kind]; len(prev) > 0 {
+			q := prev[g.R.IntN(len(prev))]
+			l.Operand = append([]string{}, q.Operand...)
+			if g.R.IntN(3) != 0 {
+				l.Bang, l.Op, l.Raw = q.Bang, q.Op, q.Raw
+				l.Value = append([]string{}, q.Value...)
+				if l.Kind == LeafVar {
+					if l.Op == "" {
+						g.noteValue([]string{"0"})
+					} else {
+						g.noteValue(RawValueToks(l))
+					}
+				}
+				return l
+			}
+		}
+	} else if l.Kind != LeafAuto {
+		kind := l.Kind
+		defer func() {
+			if l.Kind == kind && len(l.Operand) > 0 {
+				g.prevLeaves[kind] = append(g.prevLeaves[kind], l)
+			}
+		}()
 	}
 	if !g.P.SingleTokenOperands && g.R.IntN(8) == 0 {
 		// an operand of several tokens (everything up to the closing parenthesis belongs to it)
